@@ -813,7 +813,8 @@ func (f *frame) frameCheckCall(cur *State, callee string, cms *modSet, pos token
 			if ms.keyAll[k] {
 				continue
 			}
-			alts := []Term{fmt.Sprintf("(>= %s %s)", a, ms.allocAt)}
+			// a nil backing array / nil map has no cell to write (the callee's own fresh allocation is covered by >= allocAt)
+			alts := []Term{fmt.Sprintf("(>= %s %s)", a, ms.allocAt), fmt.Sprintf("(= %s 0)", a)}
 			done := false
 			for _, b := range ms.arrs[k] {
 				if a == b {
@@ -837,6 +838,10 @@ func (f *frame) frameCheckKeyNamed(cur *State, k string, ix Term, pos token.Pos,
 	alts := []Term{fmt.Sprintf("(>= %s %s)", ix, ms.allocAt)}
 	if strings.HasPrefix(k, "F:") {
 		alts = append(alts, fmt.Sprintf("(and (< %s 0) (>= (elem_arr %s) %s))", ix, ix, ms.allocAt))
+	}
+	if strings.HasPrefix(k, "M:") {
+		// a nil map has no entry to write (writing one panics): the callee can only have written a map it allocated itself
+		alts = append(alts, fmt.Sprintf("(= %s 0)", ix))
 	}
 	for _, r := range ms.refs[k] {
 		if r == ix {
